@@ -127,6 +127,34 @@ theorem decodeKids_fields (jn : JidNorm) (acc : Form) (fs : List Field) :
       rw [ih, hf]
       simp
 
+/-! ### submission -/
+
+theorem submitField_eq (jn : JidNorm) (frm : Form) (vals : Vals) (f : Field) :
+    submitField jn frm vals f = (submittedField jn frm vals f).map (encodeField jn) := by
+  unfold submitField submittedField
+  by_cases h1 : f.typ = "fixed"
+  · simp [h1]
+  · by_cases h2 : (!f.required && !(Form.get jn frm vals f.var).2) = true
+    · simp [h1, h2]
+    · simp [h1, h2]
+
+theorem decodeForm_submit (jn : JidNorm) (frm : Form) (vals : Vals) :
+    decodeForm (submit jn frm vals).1 =
+      some { title := "", instructions := "", typ := "submit",
+             fields := (frm.fields.filterMap
+               (submittedField jn ⟨"", "", "submit", frm.fields⟩ vals)).map (canonField jn) } := by
+  have hne : nonEmptyLines "" = [] := by decide
+  have hfm : frm.fields.filterMap (submitField jn ⟨"", "", "submit", frm.fields⟩ vals) =
+      (frm.fields.filterMap (submittedField jn ⟨"", "", "submit", frm.fields⟩ vals)).map (encodeField jn) := by
+    rw [List.map_filterMap]
+    congr 1
+    funext f
+    rw [submitField_eq]
+  simp only [submit, encodeForm, decodeForm, headKids, if_true, hne, List.map_nil, List.nil_append, hfm]
+  have ht : attrLocal [at' "type" "submit"] "type" = some "submit" := by decide
+  rw [ht, decodeKids_fields]
+  simp
+
 /-! ### line splitting -/
 
 theorem splitNL_line (l : List Char) (h : ∀ c ∈ l, isNL c = false) : splitNL l = [l] := by
